@@ -94,7 +94,9 @@ def project(weights,
     range_dominances = [(j, i) for i, j in range_dominances]
     scalings = [-1.0 if m == -1 else 1.0 for m in monotonicities]
     for dim, (lower, upper) in enumerate(zip(input_min, input_max)):
-      if lower is not None and upper is not None:
+      # A zero-width range cannot be scaled back (0 / 0); such dimensions are
+      # rejected for range dominance pairs and need no scaling otherwise.
+      if lower is not None and upper is not None and upper > lower:
         scalings[dim] *= upper - lower
     scalings = tf.constant(
         scalings, dtype=weights.dtype, shape=(weights.shape[0], 1))
@@ -176,7 +178,9 @@ def assert_constraints(weights,
   if range_dominances:
     scalings = [-1.0 if m == -1 else 1.0 for m in monotonicities]
     for dim, (lower, upper) in enumerate(zip(input_min, input_max)):
-      if lower is not None and upper is not None:
+      # A zero-width range cannot be scaled back (0 / 0); such dimensions are
+      # rejected for range dominance pairs and need no scaling otherwise.
+      if lower is not None and upper is not None and upper > lower:
         scalings[dim] *= upper - lower
     for dominant_dim, weak_dim in range_dominances:
       diff = tf.reduce_min(scalings[dominant_dim] * weights[dominant_dim] -
@@ -385,6 +389,11 @@ def verify_hyperparameters(num_input_dims=None,
           raise ValueError("Range dominance constraint's dimensions must "
                            "have `input_max` set. Dimension %d is not set." %
                            (dim))
+        if input_min[dim] >= input_max[dim]:
+          raise ValueError("Range dominance constraint's dimensions must "
+                           "have `input_min` < `input_max`. Dimension %d has "
+                           "range [%f, %f]." %
+                           (dim, input_min[dim], input_max[dim]))
       if (weak_dim, dominant_dim) in dim_pairs:
         raise ValueError("Cannot have two range dominance constraints on the "
                          "same pair of features conflicting. Features: %d, %d" %
